@@ -36,6 +36,8 @@ func main() {
 			checkC04(tier)
 		case "C05":
 			checkC05(tier)
+		case "C07":
+			checkC07(tier)
 		case "C16":
 			checkC16(tier)
 		case "C18":
@@ -161,6 +163,8 @@ func replay(path string) {
 		want = []string{"fc", "bsm"}
 	case "C05":
 		judge = judgeC05
+	case "C07":
+		judge = judgeC07
 	case "C16":
 		judge = judgeC16
 	case "C18":
